@@ -1211,4 +1211,221 @@ theorem condOK_5 (c : X.Expr) (h : cond5 G.pk G.pnames G.xc.impure G.rho c = tru
 
 end
 
+/-! ### `a[i] := e` with a subscript and a value that may contain calls -/
+
+theorem exec_assignSub_exit' (fuel : Nat) (xc : X.Ctx) (n : String) (i e : X.Expr) (σ st : X.St) (ht : X.tick xc σ = some st)
+    (code : Word) (σ' : X.St) (h : X.exec (fuel + 1) xc (.assignSub n i e) σ = .exit code σ') :
+    X.eval fuel xc i st = .exit code σ' ∨
+    (∃ iv s, X.eval fuel xc i st = .ok (.int iv) s ∧ X.eval fuel xc e s = .exit code σ') := by
+  unfold X.exec at h
+  rw [ht] at h
+  simp only at h
+  split at h
+  · simp at h
+  unfold Res.bind at h
+  cases hr : asInt "subscript" (X.eval fuel xc i st) with
+  | ok iv s =>
+    rw [hr] at h
+    simp only at h
+    cases hr2 : asInt "assigned value" (X.eval fuel xc e s) with
+    | ok w s' =>
+      rw [hr2] at h
+      simp only at h
+      split at h <;> simp at h
+    | exit c s' =>
+      rw [hr2] at h
+      simp only [Res.exit.injEq] at h
+      rw [← h.1, ← h.2]
+      exact Or.inr ⟨iv, s, asInt_ok _ _ _ _ hr, asInt_exit _ _ _ _ hr2⟩
+    | undef w => rw [hr2] at h; simp at h
+  | exit c s =>
+    rw [hr] at h
+    simp only [Res.exit.injEq] at h
+    rw [← h.1, ← h.2]
+    exact Or.inl (asInt_exit _ _ _ _ hr)
+  | undef w => rw [hr] at h; simp at h
+
+/-- The array a name denotes does not depend on anything a call can change. -/
+theorem readName_arr_frame (xc : X.Ctx) (s s' : X.St) (n : String) (r : ArrRef) (hf : FrameEq s s')
+    (h : X.readName xc s' n = .ok (.arr r)) : X.readName xc s n = .ok (.arr r) := by
+  unfold X.readName at h ⊢
+  rw [hf.1] at h
+  cases hl : s.locals.lookup n with
+  | some b =>
+    rw [hl] at h
+    cases b with
+    | var o => cases o <;> simp at h
+    | _ => exact h
+  | none =>
+    rw [hl] at h
+    simp only at h ⊢
+    cases hg : xc.genv.lookup n with
+    | none => rw [hg] at h; simp at h
+    | some g =>
+      rw [hg] at h
+      cases g with
+      | var =>
+        simp only at h
+        cases hgl : s'.gvars.lookup n with
+        | none => rw [hgl] at h; simp at h
+        | some o => rw [hgl] at h; cases o <;> simp at h
+      | _ => exact h
+
+/-- `a[i] := e`: the subscript and the value have their triples (`CondOK`: call-free, with calls
+    of pure functions, or with one call of any callee next to constants). -/
+theorem execS_assignSubG (K : PCtx) (exitJ : Nat) (wf : K.WFS exitJ) (f : Nat) (n : String) (ix e : X.Expr) (σ : X.St)
+    (hI : CondOK K f ix) (hV : CondOK K f e)
+    (hlocx : ∀ st mem cd s, Rep K st mem → X.eval f K.xc e st = .exit cd s → ∃ ad, K.loc n = some ad) :
+    ExecS K exitJ (.assignSub n (optExpr (annotate K.ρ ix)) (optExpr (annotate K.ρ e))) σ
+      (X.exec (f + 1) K.xc (.assignSub n ix e) σ) := by
+  intro gs code gs' i a b mem hg hat hr hsz hnl hci
+  cases ht : X.tick K.xc σ with
+  | none => unfold X.exec; rw [ht]; trivial
+  | some st =>
+    have hs := tick_same _ _ _ ht
+    have hrst : Rep K st mem := hr.same hs
+    have hio0 : st.io = σ.io := hs.2.2.2.1
+    obtain ⟨ci, gs1, sym, ce, gs2, h1, hl, h3, hgs', hcode⟩ := genStmt_assignSub_inv _ _ _ _ _ _ _ hg
+    subst hcode; subst hgs'
+    obtain ⟨e1o, e1s, _, e1c⟩ := genExpr_eff _ _ _ _ _ _ h1
+    obtain ⟨e3o, e3s, _, e3c⟩ := genExpr_eff _ _ _ _ _ _ h3
+    simp only at e3o e3s e3c hsz
+    have hci2 : ConstsIn K gs2 := hci
+    have hci1 : ConstsIn K gs1 := fun x hx => hci2 x (e3c x hx)
+    have hoff : gs1.offset < K.S := by omega
+    simp only [low_append, List.append_assoc] at hat ⊢
+    have hl3 : K.low [iADD, iLDBM SP_OFFSET, IDir.fb FbKind.stai K.ctx.frame (-(gs1.offset : Int))]
+        = [.opr 1, .imm 0x1 1, .imm 0x8 ((K.S : Int) - 1 + -(gs1.offset : Int))] := rfl
+    have hl5 : K.low [iLDBM SP_OFFSET, IDir.fb FbKind.ldbi K.ctx.frame (-(gs1.offset : Int)), iSTAI 0]
+        = [.imm 0x1 1, .imm 0x7 ((K.S : Int) - 1 + -(gs1.offset : Int)), .imm 0x8 0] := rfl
+    rw [hl3, hl5] at hat ⊢
+    -- what running the subscript's code and parking the element's address gives
+    have hpark : ∀ (iv : Word) (s1 : X.St), X.eval f K.xc ix st = .ok (.int iv) s1 →
+        ∀ ad, K.loc n = some ad → ad < memWords →
+        ∃ (b1 : Word) (mem1 : Mem), Steps K.env (cfg i a b mem) σ.io
+            (cfg (i + (K.low ci).length + (K.low (genVar .B sym)).length + 1 + 1 + 1) (iv + mem1.read ad) (mem1.read 1)
+              (mem1.write (K.slot gs1.offset) (iv + mem1.read ad))) s1.io ∧
+          Rep K s1 mem1 ∧ Rep K s1 (mem1.write (K.slot gs1.offset) (iv + mem1.read ad)) ∧
+          (K.slot gs1.offset < memWords) := by
+      intro iv s1 hev1 ad hloc hlt
+      have hA := hI.exec st mem iv s1 hrst hev1
+      obtain ⟨b1, mem1, st1, rep1, _⟩ := hA gs ci gs1 i a b mem h1 hat.left hrst (by omega) hnl hci1
+      rw [hio0] at st1
+      have s2' := exec_genVar K wf.toWF .B n sym s1 (i + (K.low ci).length) iv b1 mem1 s1.io ad hl hat.right.left rep1 hloc hlt
+      simp only at s2'
+      have hat3 := hat.right.right.left
+      have sA := Step.add (env := K.env) (cfg (i + (K.low ci).length + (K.low (genVar .B sym)).length) iv (mem1.read ad) mem1) s1.io
+        (by have := hat3.get 0 _ rfl; simpa [Nat.add_assoc] using this)
+      have sB := Step.ldbm (env := K.env) (cfg (i + (K.low ci).length + (K.low (genVar .B sym)).length + 1) (iv + mem1.read ad) (mem1.read ad) mem1)
+        s1.io 1 _ (by have := hat3.get 1 _ rfl; simpa [Nat.add_assoc] using this) (ld_one mem1)
+      have hslot : (K.slot gs1.offset : Int) = (K.sp : Int) + (K.S : Int) - 1 + (-(gs1.offset : Int)) := by
+        unfold PCtx.slot; omega
+      have hadr := slot_addr K.sp K.S (-(gs1.offset : Int)) (K.slot gs1.offset) hslot
+      obtain ⟨hsl1, hsl2⟩ := wf.slot_ok gs1.offset hoff
+      have hst : IAm.store K.env mem1 (mem1.read 1 + IAm.W ((K.S : Int) - 1 + -(gs1.offset : Int))) (iv + mem1.read ad)
+          = some (mem1.write (K.slot gs1.offset) (iv + mem1.read ad)) := by
+        rw [rep1.sp, hadr]; exact store_ofNat _ _ _ _ hsl1 hsl2
+      have hne1 : (mem1.read 1 + IAm.W ((K.S : Int) - 1 + -(gs1.offset : Int))).toNat ≠ 1 := by
+        rw [rep1.sp, hadr]
+        exact ofNat_toNat_ne_one _ (by have := wf.sp_ge; unfold PCtx.slot; omega) hsl1
+      have sC := Step.stai (env := K.env) (cfg (i + (K.low ci).length + (K.low (genVar .B sym)).length + 1 + 1) (iv + mem1.read ad) (mem1.read 1) mem1)
+        s1.io _ _ (by have := hat3.get 2 _ rfl; simpa [Nat.add_assoc] using this) hst hne1
+      have frm2 : Frm K gs1.offset (gs1.offset + 1) mem1 (mem1.write (K.slot gs1.offset) (iv + mem1.read ad)) := by
+        intro x hx
+        rw [Mem.read_write_other]
+        exact fun e => hx gs1.offset (Nat.le_refl _) (by omega) e.symm
+      have rep2 := rep1.frame wf.toWF frm2 (by omega) (by omega)
+      exact ⟨b1, mem1, st1.trans (s2'.trans (Steps.step _ _ _ _ _ _ sA (Steps.step _ _ _ _ _ _ sB (Steps.one sC)))),
+        rep1, rep2, hsl1⟩
+    cases hx : X.exec (f + 1) K.xc (.assignSub n ix e) σ with
+    | undef w => trivial
+    | exit c s =>
+      rcases exec_assignSub_exit' f K.xc n ix e σ st ht c s hx with he | ⟨iv, s1, hev1, he⟩
+      · obtain ⟨c', st', hex⟩ := hI.exit st mem c s hrst he gs ci gs1 i a b mem h1 hat.left hrst (by omega) hnl hci1
+        rw [hio0] at st'
+        exact ⟨c', st', hex⟩
+      · -- the subscript is evaluated, the value terminates the program: the name must have a place
+        have hA := hI.exec st mem iv s1 hrst hev1
+        obtain ⟨b1, mem1, st1, rep1, _⟩ := hA gs ci gs1 i a b mem h1 hat.left hrst (by omega) hnl hci1
+        -- the code loads the array's pointer before the value is evaluated: the name must have a place
+        obtain ⟨ad, hloc⟩ := hlocx s1 mem1 c s rep1 he
+        have hlt := (wf.loc_ok n ad hloc).2.1
+        obtain ⟨b1', mem1', stp, _, rep2, _⟩ := hpark iv s1 hev1 ad hloc hlt
+        obtain ⟨c', st', hex⟩ := hV.exit s1 _ c s rep2 he _ ce gs2
+          (i + (K.low ci).length + (K.low (genVar .B sym)).length + 1 + 1 + 1) (iv + mem1'.read ad) (mem1'.read 1)
+          (mem1'.write (K.slot gs1.offset) (iv + mem1'.read ad)) h3
+          (by have := hat.right.right.right.left; simpa [Nat.add_assoc] using this) rep2 hsz (by simp only; omega) hci2
+        exact ⟨c', stp.trans st', hex⟩
+    | ok fl σ'' =>
+      obtain ⟨iv, s1, w, s2, r, hev1, hev2, harr, hset, hfl⟩ := exec_assignSub f K.xc n ix e σ st ht fl σ'' hx
+      subst hfl
+      -- the array: the name denotes the same array before the value is evaluated
+      have hf12 : FrameEq s1 s2 := eval_frame K.xc f e s1 _ s2 hev2
+      have hrd2 := arrayOf_ok _ _ _ _ harr
+      have hrd1 := readName_arr_frame K.xc s1 s2 n r hf12 hrd2
+      obtain ⟨id, hid⟩ : ∃ id, r = .glob id := by
+        cases r with
+        | glob id => exact ⟨id, rfl⟩
+        | lit ws => simp [X.arrSet] at hset
+      subst hid
+      -- the subscript, the pointer, the parked address
+      have hA := hI.exec st mem iv s1 hrst hev1
+      obtain ⟨b0, mem0, _, rep0, _⟩ := hA gs ci gs1 i a b mem h1 hat.left hrst (by omega) hnl hci1
+      obtain ⟨ad, hloc, hlt, _⟩ := rep0.aptr n _ hrd1
+      obtain ⟨b1, mem1, stp, rep1, rep2, hsl1⟩ := hpark iv s1 hev1 ad hloc hlt
+      obtain ⟨ad', hloc', _, hptr0⟩ := rep1.aptr n _ hrd1
+      have had : ad' = ad := by rw [hloc] at hloc'; exact (Option.some.inj hloc').symm
+      subst had
+      have hptr : mem1.read ad' = BitVec.ofNat 32 (K.abase id) := hptr0
+      -- the value
+      have hE := hV.exec s1 _ w s2 rep2 hev2
+      obtain ⟨b3, mem3, st3, rep3, frm3⟩ := hE _ ce gs2 (i + (K.low ci).length + (K.low (genVar .B sym)).length + 1 + 1 + 1)
+        (iv + mem1.read ad') (mem1.read 1) (mem1.write (K.slot gs1.offset) (iv + mem1.read ad')) h3
+        (by have := hat.right.right.right.left; simpa [Nat.add_assoc] using this) rep2 hsz (by simp only; omega) hci2
+      simp only [hiB_false] at frm3
+      obtain ⟨cells, hc, h0, h1', hσ''⟩ := arrSet_glob s2 σ'' id iv w hset
+      obtain ⟨hcsz, _⟩ := rep3.acells id cells hc
+      have hidx : iv.toInt.toNat < K.asize id := by omega
+      obtain ⟨hahi, hamw⟩ := wf.arr_hi id (by omega)
+      have hsum : iv + BitVec.ofNat 32 (K.abase id) = BitVec.ofNat 32 (K.abase id + iv.toInt.toNat) := by
+        rw [BitVec.add_comm]
+        conv => lhs; rw [nonneg_ofNat iv h0]
+        rw [BitVec.ofNat_add]
+      have hslot : (K.slot gs1.offset : Int) = (K.sp : Int) + (K.S : Int) - 1 + (-(gs1.offset : Int)) := by
+        unfold PCtx.slot; omega
+      have hadr := slot_addr K.sp K.S (-(gs1.offset : Int)) (K.slot gs1.offset) hslot
+      have hkeep : mem3.read (K.slot gs1.offset) = iv + mem1.read ad' := by
+        rw [frm3 _ (slot_ge K gs1.offset hoff) (wf.toWF.not_inArr _ (by unfold PCtx.slot; omega)) (fun k h1 h2 e => by
+          have := slot_inj K gs1.offset k hoff (by omega) e; omega)]
+        exact Mem.read_write_same _ _ _ hsl1
+      -- the address back into breg, the store
+      have hat5 := hat.right.right.right.right
+      simp only [List.length_cons, List.length_nil] at hat5
+      have sD := Step.ldbm (env := K.env) (cfg (i + (K.low ci).length + (K.low (genVar .B sym)).length + 1 + 1 + 1 + (K.low ce).length) w b3 mem3)
+        s2.io 1 _ (by have := hat5.get 0 _ rfl; simpa [Nat.add_assoc] using this) (ld_one mem3)
+      have hld : Isa.ld mem3 (mem3.read 1 + IAm.W ((K.S : Int) - 1 + -(gs1.offset : Int))) = some (iv + mem1.read ad') := by
+        rw [rep3.sp, hadr, ld_ofNat _ _ hsl1, hkeep]
+      have sE := Step.ldbi (env := K.env) (cfg (i + (K.low ci).length + (K.low (genVar .B sym)).length + 1 + 1 + 1 + (K.low ce).length + 1) w (mem3.read 1) mem3)
+        s2.io _ _ (by have := hat5.get 1 _ rfl; simpa [Nat.add_assoc] using this) hld
+      have hW0 : IAm.W 0 = (0#32 : Word) := by decide
+      have hea : iv + mem1.read ad' + IAm.W 0 = BitVec.ofNat 32 (K.abase id + iv.toInt.toNat) := by
+        rw [hW0, BitVec.add_zero, hptr, hsum]
+      have hst2 : IAm.store K.env mem3 (iv + mem1.read ad' + IAm.W 0) w
+          = some (mem3.write (K.abase id + iv.toInt.toNat) w) := by
+        rw [hea]; exact store_ofNat _ _ _ _ (by omega) (wf.arr_code id _ hidx)
+      have hne2 : (iv + mem1.read ad' + IAm.W 0).toNat ≠ 1 := by
+        rw [hea]; exact ofNat_toNat_ne_one _ (by have := wf.sp_ge; omega) (by omega)
+      have sF := Step.stai (env := K.env) (cfg (i + (K.low ci).length + (K.low (genVar .B sym)).length + 1 + 1 + 1 + (K.low ce).length + 1 + 1) w (iv + mem1.read ad') mem3)
+        s2.io 0 _ (by have := hat5.get 2 _ rfl; simpa [Nat.add_assoc] using this) hst2 hne2
+      refine ⟨w, iv + mem1.read ad', mem3.write (K.abase id + iv.toInt.toNat) w, ?_, ?_⟩
+      · have hio : σ''.io = s2.io := by rw [hσ'']
+        rw [hio]
+        have hlen : i + ((K.low ci).length + ((K.low (genVar .B sym)).length + (3 + ((K.low ce).length + 3))))
+            = i + (K.low ci).length + (K.low (genVar .B sym)).length + 1 + 1 + 1 + (K.low ce).length + 1 + 1 + 1 := by omega
+        simp only [List.length_append, List.length_cons, List.length_nil]
+        rw [hlen]
+        exact stp.trans (st3.trans (Steps.step _ _ _ _ _ _ sD (Steps.step _ _ _ _ _ _ sE (Steps.one sF))))
+      · rw [hσ'']
+        exact Rep.assignSub wf.toWF rep3 hc h0 h1'
+
 end Hex.C01s
